@@ -48,7 +48,8 @@ ASSUMPTIONS = ['a request shorter than 5 bytes has no id and cannot be '
 REQUIRED = ['server_requests', 'ids_matched', 'truncated_bodies',
             'unknown_types', 'probe_ok', 'status_mapping_checked',
             'client_calls', 'client_hostile_replies', 'codec_round_trips',
-            'pipelined_batches', 'abandoned_requests']
+            'pipelined_batches', 'abandoned_requests', 'odd_paths',
+            'reply_bodies_checked']
 BUDGET_S = {'quick': 300, 'thorough': 3400}
 CASE_TIMEOUT_S = 60
 
@@ -109,6 +110,10 @@ def gen_cases(tier, seed):
                 forms.append('trunc_all')
             for form in forms:
                 cases.append({'kind': 'server', 'version': version,
+                              'path': rng.choice([None, None, 'nul',
+                                                  'bad_utf8', 'long',
+                                                  'nul_end'])
+                              if form == 'intact' else None,
                               'type': t, 'form': form,
                               'use_handle': rng.random() < 0.7,
                               'pipeline': rng.choice([1, 1, 3, 8]),
@@ -137,6 +142,8 @@ def gen_cases(tier, seed):
                                              'ok_for_data']),
                       'version': rng.choice([3, 3, 4, 6]),
                       'cancel': rng.choice([0, 0, 1, 2]),
+                      'handle_style': rng.choice([None, None, 'empty',
+                                                  'binary', 'long']),
                       'cseed': rng.randrange(1 << 30)})
 
     for version in (3, 4, 5, 6):
@@ -200,6 +207,90 @@ class _Session:
         return await self.env.__aexit__(*a)
 
 
+VERSION_BOX = [3]
+
+
+def _parse_attrs(r, version):
+    """Independent reader of an ATTRS structure (filexfer-02 / -13)"""
+
+    flags = r.u32()
+    if version >= 4:
+        r.byte()
+    if flags & 0x1:
+        r.u64()
+    if version <= 3:
+        if flags & 0x2:
+            r.u32(), r.u32()
+        if flags & 0x4:
+            r.u32()
+        if flags & 0x8:
+            r.u32(), r.u32()
+    else:
+        sub = flags & 0x100
+        if flags & 0x400:
+            r.u64()
+        if flags & 0x80:
+            r.str(), r.str()
+        if flags & 0x4:
+            r.u32()
+        for bit in (0x8, 0x10, 0x20, 0x8000):
+            if flags & bit:
+                r.u64()
+                if sub:
+                    r.u32()
+        if flags & 0x40:
+            r.str()
+        if flags & 0x200:
+            r.u32()
+            if version >= 6:
+                r.u32()
+        if flags & 0x800:
+            r.byte()
+        if flags & 0x1000:
+            r.str()
+        if flags & 0x2000:
+            r.u32()
+        if flags & 0x4000:
+            r.str()
+    if flags & 0x80000000:
+        for _ in range(r.u32()):
+            r.str(), r.str()
+
+
+def _body_problem(t, body, version):
+    """None if the reply body has the shape its type promises"""
+
+    r = Rd(body)
+    try:
+        if t == F.FXP_STATUS:
+            r.u32()
+            r.str(), r.str()
+            return None             # error-specific data may follow
+        if t == F.FXP_HANDLE:
+            r.str()
+        elif t == F.FXP_DATA:
+            r.str()
+            if r.left() == 1:
+                r.byte()
+        elif t == F.FXP_NAME:
+            for _ in range(r.u32()):
+                r.str()
+                if version <= 3:
+                    r.str()
+                _parse_attrs(r, version)
+            if r.left() == 1:
+                r.byte()
+        elif t == F.FXP_ATTRS:
+            _parse_attrs(r, version)
+        else:
+            return None
+    except (ValueError, struct.error) as exc:
+        return f'does not parse as that type ({exc})'
+    if r.left():
+        return f'has {r.left()} bytes left over'
+    return None
+
+
 def _judge_log(sent, responses, viol, mon, what):
     """sent: list of (id, type, had_id); responses: (type, id, body)"""
 
@@ -222,6 +313,15 @@ def _judge_log(sent, responses, viol, mon, what):
             viol.append({'mechanism': 'reply_type_illegal',
                          'detail': f'{what}: request type {t} answered with '
                                    f'type {got[0]}'})
+        else:
+            body = next(b for tt, r_, b in responses if r_ == rid)
+            prob = _body_problem(got[0], body, VERSION_BOX[0])
+            mon['reply_bodies_checked'] += 1
+            if prob:
+                viol.append({'mechanism': 'reply_body_malformed',
+                             'detail': f'{what}: request type {t}: reply '
+                                       f'type {got[0]} {prob}; body='
+                                       f'{body[:60].hex()}'})
     for rid in byid:
         if rid not in asked:
             viol.append({'mechanism': 'reply_to_unknown_id',
@@ -277,6 +377,13 @@ def _run_server(case, mon, viol):
                     body = body.replace(sstr(b'HANDLE'), sstr(handle))
                 if t not in F.REQUEST_TYPES:
                     mon['unknown_types'] += 1
+                if case.get('path') and case['form'] == 'intact':
+                    # an unusual but well-framed path in place of /f.txt
+                    odd = {'nul': b'/f\x00.txt', 'bad_utf8': b'/\xff\xfe',
+                           'long': b'/' + b'a' * 5000,
+                           'nul_end': b'/f.txt\x00'}[case['path']]
+                    body = body.replace(sstr(b'/f.txt'), sstr(odd))
+                    mon['odd_paths'] += 1
 
                 variants = []
                 if case['form'] in ('intact', 'ext'):
@@ -329,8 +436,10 @@ def _run_server(case, mon, viol):
                         'detail': f'version {version} type {t} form '
                                   f'{case["form"]} ext={case.get("ext")}: '
                                   f'the SFTP session ended'})
+            VERSION_BOX[0] = cli.version or version
             _judge_log(sent, cli.responses, viol, mon,
-                       f'v{version} type {t} {case["form"]}')
+                       f'v{version} type {t} {case["form"]} '
+                       f'path={case.get("path")}')
             for ev in env.san.drain():
                 viol.append({'mechanism': 'sanitizer_' + ev['kind'],
                              'detail': ev})
@@ -413,7 +522,8 @@ def _run_client(case, mon, viol):
     info = {}
 
     async def main(loop):
-        plan = {'order': case['order'], 'batch': k}
+        plan = {'order': case['order'], 'batch': k,
+                'handle_style': case.get('handle_style')}
         ref = sftpref.RefSFTPServer(rng, plan, max_version=case['version'])
         for i in range(k):
             ref.files[b'/file%d' % i] = bytearray(
@@ -474,7 +584,17 @@ def _run_client(case, mon, viol):
                     if ot.done():
                         break
                     orig_flush()
-                handles.append(await ot)
+                try:
+                    handles.append(await ot)
+                except asyncssh.Error as exc:
+                    viol.append({
+                        'mechanism': 'client_call_failed',
+                        'detail': f'open() of /file{i} against a conformant '
+                                  f'server (handle style '
+                                  f'{case.get("handle_style")}): {exc!r}'})
+                    conn.abort()
+                    await env.settle()
+                    return
 
             async def call(i):
                 kind = i % 3
